@@ -7,8 +7,8 @@ E(tasks, cap) == [tasks |-> tasks, cap |-> cap]
 Min2(a, b) == IF a < b THEN a ELSE b
 S(sched, ignoredWorkerOf, cores) ==
     LET s0 == [sched |-> sched, workerOf |-> <<>>, W |-> cores]
-        m == M(s0)
-    IN [sched |-> sched, workerOf |-> AssignOne(cores, m), W |-> Min2(cores, m)]
+        m == ComputeM(s0)
+    IN WithDerived([sched |-> sched, workerOf |-> AssignOne(cores, m), W |-> Min2(cores, m)])
 
 \* sequential tasks with different client counts (None padding), 2 workers
 Seq2 == S(<<E(<<T(1, 2, 2)>>, 0), E(<<T(2, 1, 1)>>, 0)>>, <<1, 2>>, 2)
